@@ -625,7 +625,10 @@ pub fn schedules(ctx : &Ctx, out : &mut Out)
         let small = i % 4 == 0;
         let sc = if small { gen_shape(&mut r, flavor, 3) } else { gen_shape(&mut r, flavor, if ctx.thorough { 12 } else { 7 }) };
         if !sc.well_formed() { continue; }
+        // a fifth of the scenarios on a file system whose reads come in pieces of 3 bytes
+        crate::memsys::set_default_read_chunk(if i % 5 == 3 { 3 } else { 0 });
         let p = prepare(&mut r, &sc, flavor, out);
+        crate::memsys::set_default_read_chunk(0);
         let targets : Vec<String> = sc.all_targets().into_iter().collect();
         let goal = if r.chance(1, 3) && !targets.is_empty() { Some(r.pick(&targets).clone()) } else { None };
         let op = if r.chance(1, 6) { Op::Clean(goal) } else { Op::Build(goal) };
